@@ -5,7 +5,7 @@ import numpy as np
 ID = "C02"
 PROPS_FILE = "theories/Props/C02.v"
 EXTRACT = ("theories/Extract/XC02.v", "c02",
-           ["entry_hull_ijv", "entry_hull_labels", "entry_hull_label", "entry_hull_ok", "entry_batch_ok"])
+           ["entry_hull_ijv", "entry_hull_ijv_w", "entry_hull_labels", "entry_hull_label", "entry_hull_ok", "entry_batch_ok"])
 PYX = {"_convex_hull.pyx": ["CONVEX", "convex_hull_ijv"]}
 RULE = ("corpus; every non-empty point set of a 3x3 and 3x4 grid (thorough: also 4x3, 2x5, 5x2) as one label through convex_hull_ijv, "
         "alone (slack 0, where the in-place guard can fire), followed by another label (whose first row an overrun would corrupt) and behind a filler label (slack > 0); random label images "
@@ -21,7 +21,10 @@ TRUSTED = ["modelled, not verified: np.lexsort / np.argsort (as sort by (v,j,i) 
            "start_j..end_j it reads)",
            "Python glue: block splitting for the label-alone comparison, the image -> (i,j,label) list of all "
            "positive pixels handed to the verified checker, indexes=None -> sorted distinct non-zero labels"]
-ASSUMPTIONS = ["coordinates and labels are non-negative and < 2^15 (no int32 overflow in the cross product)",
+ASSUMPTIONS = ["coordinates and labels are non-negative int32 values. The correspondence model is the kernel AS WRITTEN in C int "
+               "arithmetic (cross product and sentinel reduced to the signed 32-bit range, Model/HullW.v); it equals the exact model "
+               "when all coordinates are <= 46340 (C02_wrap_transfer, sharp: |cross| <= M*M < 2^31). Above that bound the kernel "
+               "loses extreme points: known finding F22",
                "the requested index list is repeat-free (as the property states); with a repeated label the code "
                "reads labels_ijv[n, 2] one row past the buffer"]
 CASE_TIMEOUT = 60
@@ -247,6 +250,37 @@ def _pair_ijv(rng):
     return {"fn": "ijv", "ijv": rows, "idx": labels if idx is None else idx}
 
 
+def _big_ijv(rng):
+    BIG = [46340, 46341, 46342, 50000, 60000, 65536, 100000, 2 ** 24, 2 ** 30, 2 ** 31 - 2, 2 ** 31 - 2, 2 ** 31 - 1]
+    rows = []
+    nl = int(rng.choice([1, 1, 2, 3]))
+    labels = sorted(set(int(x) for x in rng.randint(1, 9, nl)))
+    for l in labels:
+        big = rng.rand() < 0.75
+        hi_i = int(rng.choice(BIG)) if big else int(rng.choice([3, 10, 100]))
+        wj = int(rng.choice([1, 2, 3, 4, 6, 12, 60] + ([700, 3000] if rng.rand() < 0.1 else [])))
+        n = int(rng.choice([2, 3, 3, 4, 5, 8, 15]))
+        shape = rng.choice(["random", "corners", "vee", "line", "nearmax"])
+        for k in range(n):
+            j = int(rng.randint(0, wj + 1))
+            if shape == "corners":
+                i = int(rng.choice([0, hi_i, hi_i // 2, hi_i - 1]))
+            elif shape == "vee":
+                i = hi_i - int(abs(j - wj / 2.0) * (hi_i // max(1, wj))) if rng.rand() < 0.7 else int(rng.randint(0, hi_i + 1))
+            elif shape == "line":
+                i = (hi_i // max(1, wj)) * j
+            elif shape == "nearmax":
+                i = hi_i - int(rng.randint(0, 3))
+            else:
+                i = int(rng.randint(0, hi_i + 1))
+            rows.append([max(0, min(int(i), 2 ** 31 - 1)), j, l])
+    if rng.rand() < 0.8:
+        rows = [list(x) for x in sorted(set(map(tuple, rows)))]
+    rows = [rows[k] for k in rng.permutation(len(rows))]
+    idx = _index_list(rng, labels, True)
+    return {"fn": "ijv", "ijv": rows, "idx": labels if idx is None else idx}
+
+
 def _grid_sets(H, W):
     cells = [(i, j) for j in range(W) for i in range(H)]
     for bits in range(1, 1 << (H * W)):
@@ -329,6 +363,10 @@ def generate(ctx):
         else:
             c["ijv"] = []
         cases.append(c); ctx.count("malformed-ijv")
+    # coordinates beyond the int32 range of the kernel's cross product (finding F22): tall/wide point lists, mixed with
+    # small labels in the same call; rows up to 2^31-1 (columns only moderately large: the kernel allocates max_j+1 ints)
+    for _ in range(ctx.n(400, 3000)):
+        cases.append(_big_ijv(rng)); ctx.count("ijv-big-coordinates")
     # malformed: empty ijv is rejected by both sides
     cases.append({"fn": "ijv", "ijv": [], "idx": [1]}); ctx.count("malformed-empty-ijv")
     cases.append({"fn": "ijv", "ijv": [], "idx": []}); ctx.count("malformed-empty-ijv")
@@ -413,6 +451,8 @@ def _call(case):
         before = arr.copy()
         h, c = M.convex_hull_ijv(arr, _indexes(case))
         r = _res(h, c)
+        if len(case["ijv"]) == 0:
+            r["empty_ijv"] = True
         r["input_kept"] = bool(np.array_equal(arr, before))
         return r
     a = np.array(case["img"], int).reshape(len(case["img"]), -1)
@@ -442,14 +482,21 @@ def _bad(o):
 
 # ------------------------------------------------------------------------------ model
 
+WRAP_BOUND = 46340
+
+
+def _big(case):
+    return case["fn"] == "ijv" and any(max(r[0], r[1]) > WRAP_BOUND for r in case["ijv"])
+
+
 def _marg(case):
     if case["fn"] == "ijv":
-        return "entry_hull_ijv", [case["ijv"], case["idx"]]
+        return "entry_hull_ijv_w", [case["ijv"], case["idx"]]
     return "entry_hull_labels", [case["img"], -1 if case["idx"] is None else case["idx"]]
 
 
 def model(ctx, cases, outs):
-    jobs = {"entry_hull_ijv": [], "entry_hull_labels": []}
+    jobs = {"entry_hull_ijv_w": [], "entry_hull_labels": []}
     where = []
     for k, c in enumerate(cases):
         e, a = _marg(c)
@@ -459,28 +506,36 @@ def model(ctx, cases, outs):
                 e, a = _marg(sub)
                 jobs[e].append(a); where.append((e, k, n))
     res = {e: ctx.run_model(e, a) if a else [] for e, a in jobs.items()}
+    # inside the bound the as-written and the exact model must agree (proved per label: C02_wrap_transfer); sample it
+    small = [k for k, c in enumerate(cases) if c["fn"] == "ijv" and not _big(c)][::7]
+    ex = ctx.run_model("entry_hull_ijv", [[cases[k]["ijv"], cases[k]["idx"]] for k in small]) if small else []
+    exact_of = dict(zip(small, ex))
     pos = {e: 0 for e in jobs}
     mouts = [{"main": None, "alone": {}} for _ in cases]
     for e, k, n in where:
         r = res[e][pos[e]]; pos[e] += 1
         if n is None:
             mouts[k]["main"] = r
+            if k in exact_of and exact_of[k] != r:
+                mouts[k]["main"] = {"model_error": "as-written and exact model differ inside the bound: %s vs %s" % (str(r)[:120], str(exact_of[k])[:120])}
         else:
             mouts[k]["alone"][n] = r
     return mouts
 
 
-def _cmp(o, m, what, idx=None):
+def _cmp(o, m, what, idx=None, big=False):
     if isinstance(m, dict):
         return "%s: model failed: %s" % (what, m)
     if m == -1:
+        if isinstance(o, dict) and o.get("rows") == [] and "counts" in o and not any(o["counts"]) and o.get("empty_ijv"):
+            return None
         return None if _bad(o) and "exc" in o else "%s: model rejects the input, implementation returned %s" % (what, str(o)[:200])
     if _bad(o):
         return "%s: implementation raised/crashed: %s" % (what, str(o)[:300])
     rows, counts, over, ncol = m[:4]
     if len(m) > 4 and idx is not None and m[4] != idx:
         return "%s: model's index list %s differs from the harness' %s" % (what, m[4], idx)
-    if over:
+    if over and not big:
         return "%s: model predicts that the in-place output overruns the label's own input rows" % what
     if rows != o["rows"] or counts != o["counts"] or ncol != o["ncol"]:
         return "%s: impl rows %s counts %s ncol %s / model rows %s counts %s ncol %s" % (
@@ -489,7 +544,7 @@ def _cmp(o, m, what, idx=None):
 
 
 def compare(case, out, m):
-    d = _cmp(out, m["main"], "in company", _idx_of(case) if case["fn"] == "labels" else None)
+    d = _cmp(out, m["main"], "in company", _idx_of(case) if case["fn"] == "labels" else None, _big(case))
     if d:
         return d
     if _bad(out):
@@ -497,7 +552,7 @@ def compare(case, out, m):
     for n, a in enumerate(out["alone"]):
         if a is None:
             continue
-        d = _cmp(a, m["alone"].get(n), "label #%d alone" % n)
+        d = _cmp(a, m["alone"].get(n), "label #%d alone" % n, None, _big(case))
         if d:
             return d
     return None
@@ -510,6 +565,14 @@ def _all_ijv(case):
         return case["ijv"]
     a = np.asarray(case["img"], int).reshape(len(case["img"]), -1)
     return [[int(i), int(j), int(a[i, j])] for i, j in np.argwhere(a > 0)]
+
+
+def _empty_ok(case, o):
+    """Empty point list with non-negative requests: the limiting case of 'requested labels without pixels'. As is, the kernel
+    raises ValueError (max of an empty array); the repair proposed in reports/repairs/C02-empty-ijv.diff returns zero counts.
+    Both are accepted; anything else (vertices, wrong count vector) is not."""
+    return (case["fn"] == "ijv" and len(case["ijv"]) == 0 and all(x >= 0 for x in case["idx"]) and isinstance(o, dict)
+            and "exc" not in o and "crash" not in o and o.get("rows") == [] and o.get("counts") == [0] * len(case["idx"]))
 
 
 def _malformed(case):
@@ -525,6 +588,8 @@ def check(ctx, cases, outs):
     todo = []
     for k, (c, o) in enumerate(zip(cases, outs)):
         if _malformed(c):
+            if _empty_ok(c, o):
+                continue
             if not (isinstance(o, dict) and "exc" in o):
                 res[k] = "malformed call (empty point list / negative entry) was not rejected: %s" % (str(o)[:200],)
             continue
@@ -539,8 +604,7 @@ def check(ctx, cases, outs):
     for k, r in zip(todo, ctx.run_model("entry_batch_ok", args) if args else []):
         o = outs[k]
         if r != 1:
-            res[k] = ("some requested label's block is not the hull polygon of its pixels, in request order "
-                      "(Spec.HullSpec.batch_ok false)")
+            res[k] = CHECK_FAIL
             continue
         # independence: each label alone gives exactly its block
         off = 0
@@ -558,6 +622,42 @@ def check(ctx, cases, outs):
     return res
 
 
+CHECK_FAIL = ("some requested label's block is not the hull polygon of its pixels, in request order "
+              "(Spec.HullSpec.batch_ok false)")
+
+
+def attribute(ctx, case, out, clause):
+    """F22 iff the as-written (int32-wrapped) model reproduces the implementation's output exactly AND the exact model
+    gives a different answer on this input; anything else stays a violation."""
+    if case.get("fn") != "ijv" or _bad(out) or _malformed(case) or not _big(case):
+        return None
+    if not (clause == CHECK_FAIL or clause.startswith("hull of label")):
+        return None
+    w = ctx.run_model("entry_hull_ijv_w", [[case["ijv"], case["idx"]]])[0]
+    e = ctx.run_model("entry_hull_ijv", [[case["ijv"], case["idx"]]])[0]
+    if not isinstance(w, list) or not isinstance(e, list) or len(w) < 4:
+        return None
+    same_as_written = (w[0] == out["rows"] and w[1] == out["counts"])
+    exact_differs = (e[0] != out["rows"] or e[1] != out["counts"])
+    exact_ok = ctx.run_model("entry_batch_ok", [[case["ijv"], case["idx"], e[0], e[1]]])[0] == 1
+    return "F22" if (same_as_written and exact_differs and exact_ok) else None
+
+
+def reproduce_finding(ctx, finding):
+    """The recorded witness (the 46341 triangle) must still fail the verified checker on the implementation's output; the
+    model attribution is done on the small-column witness of the same defect (the models walk every column one by one, a
+    46342-column witness costs minutes)."""
+    case = finding["witness"]
+    out = ctx.run_impl([case])[0]
+    v = check(ctx, [case], [out])[0]
+    if not v or _bad(out):
+        return False
+    small = finding.get("witness_small_columns", case)
+    out2 = ctx.run_impl([small])[0]
+    v2 = check(ctx, [small], [out2])[0]
+    return bool(v2) and attribute(ctx, small, out2, v2) == finding["id"]
+
+
 def nontrivial(case, out):
     if _bad(out) or _malformed(case):
         return False
@@ -573,7 +673,7 @@ def kernel_crosscheck(ctx, cases, outs):
     idx = idx[::max(1, len(idx) // 40)][:40]
     args = [[cases[k]["ijv"], cases[k]["idx"]] for k in idx]
     exp = [[outs[k]["rows"], outs[k]["counts"], 0, 3] for k in idx]
-    r = ctx.coq_eval_eq("Model.Hull", "entry_hull_ijv", args, exp, tag="ijv")
+    r = ctx.coq_eval_eq("Model.HullW", "entry_hull_ijv_w", args, exp, tag="ijv")
     bad = [k for k, b in zip(idx, r) if b is not True]
     idl = [k for k, c in enumerate(cases) if c["fn"] == "labels" and not _bad(outs[k])
            and len(c["img"]) * len(c["img"][0]) <= 30][:20]
@@ -635,17 +735,26 @@ def shrink_candidates(case):
 
 MANIFEST = {
     "level_text": (
-        "Machine-checked proof (Coq 8.16) about an executable Gallina model of _convex_hull.convex_hull_ijv as "
-        "written (lexsort, request walk, column envelopes with sentinels, the three EMIT loops with CONVEX and the "
-        "in-place buffer guard, reorder through argsort(argsort)) and of cpmorphology.convex_hull (outline pre-filter): "
-        "EMIT-loop invariants, vertices are pixels, the verified checker hull_ok/batch_ok is sound for the declarative "
-        "hull specification and every vertex it accepts is an extreme point. The model is tied to the code by exact "
-        "equality of (hull array, counts) on both entry points, every requested label in company and alone; the "
-        "verified checker is evaluated on the implementation's own output."),
+        "Machine-checked proof (Coq 8.16, 46 theorems, no axioms) about an executable Gallina model of "
+        "_convex_hull.convex_hull_ijv as written and of cpmorphology.convex_hull: for every well-formed label the per-label "
+        "kernel returns a polygon meeting the full specification (vertices are pixels, no repeated vertex, every cyclic "
+        "triple strictly convex in one sense, every pixel inside or on: C02_hull_label_correct), its vertices are exactly the "
+        "extreme points and the list is determined up to rotation (C02_hull_exactly_extreme, C02_hull_label_unique), the "
+        "in-place guard never changes the result and the output never outgrows the label's rows (C02_guard_irrelevant, "
+        "C02_hull_no_overflow), and the batch function / the image entry point return these polygons in request order with "
+        "count 0 for absent labels, for every input and every repeat-free index list (C02_convex_hull_ijv_correct, "
+        "C02_convex_hull_correct). These theorems are about exact integer arithmetic; the kernel computes the turn test in C "
+        "int, which is proved equivalent for coordinates <= 46340 (C02_wrap_transfer, sharp) and refuted above "
+        "(C02_convex_wrap_refuted = known finding F22). The model as written (int32 wrap included) is tied to the code by "
+        "exact equality of (hull array, counts) on both entry points, every requested label in company and alone, all dtypes, "
+        "layouts, index-list types and coordinates up to 2^31-1; the verified checker is evaluated on every output."),
     "level_note": (
-        "Trusted: Coq kernel + vm_compute; extraction (ExtrOcamlBasic only) and the S-expression driver; the Python "
-        "harness; NumPy lexsort/argsort/argwhere as modelled; int32 arithmetic modelled as Z (|coordinates| < 2^15). "
+        "Known finding F22 (C int overflow of the cross product above coordinate 46340; .pyx defect, not rebuildable here): "
+        "reported as KNOWN-FINDING, attributed only when the as-written int32 model reproduces the output and the exact model "
+        "differs. Trusted: Coq kernel + vm_compute; extraction (ExtrOcamlBasic only) and the S-expression driver; the Python "
+        "harness; NumPy lexsort/argsort/argwhere as modelled; C int arithmetic as wrap32 (binary built with -fwrapv). The "
+        "batch-level equality of the as-written and the exact model inside the bound is tested on every run, proved per label. "
         "The tie between model and code is differential, not a proof about Cython."),
-    "technique": "Coq proof over executable model + verified checker + exact differential correspondence",
+    "technique": "Coq proof over executable model + verified checker + exact differential correspondence + model attribution of a known finding",
     "design_ref": "DESIGN.md section 7, C02",
 }
